@@ -23,6 +23,7 @@ EXPECT = {
  ('4284048', 1): [('MUTATOR-ERR', 'C26', 'MUTATOR-ERR/ingest.(ingestedYAML).Apply#5')],
  ('6ba81dd', 1): [('GEOJSON-TYPES', 'C32', 'GEOJSON-TYPES/geojson#MultiLineString')],
  ('b559a96', 1): [('ESCAPE-LEX', 'C20', 'ESCAPE-LEX/api.EscapeTagValue#8')],
+ ('2517138', 1): [('ORIENTED-CODEC', 'C19', 'ORIENTED-CODEC/b6.PolygonProtoToS2Polygon~NewPolygonProto')],
  ('43bdef0', 1): [('OVERLAY-WRAP', 'C12', 'OVERLAY-WRAP/ingest.(*MutableOverlayWorld).Traverse#out1')],
  ('b035320', 1): [('ABSENT-IS-ERROR', 'C26', 'ABSENT-IS-ERROR/ingest.(*BasicMutableWorld).RemoveTag')],
  ('1d7048f', 1): [('SLOT-GUARD', 'C23', 'SLOT-GUARD/api.compileLambda#1')],
